@@ -304,7 +304,8 @@ func addDocument(d *indexData, ib *ShardBuilder, repoID int, docID uint32) error
 	// calculate branches
 	{
 		mask := d.fileBranchMasks[docID]
-		id := uint32(1)
+		// The mask has 64 bits (see ShardBuilder.Add); the key must not wrap.
+		id := uint64(1)
 		for mask != 0 {
 			if mask&0x1 != 0 {
 				doc.Branches = append(doc.Branches, d.branchNames[repoID][uint(id)])
